@@ -66,6 +66,11 @@ Section RingFacts.
     set (k := linv _). clearbody k k1 k2. vring.
   Qed.
 
+  (* scaling the two edges scales their cross product by the product of the factors *)
+  Lemma cross_scale (k1 k2 : R) (a b : vec) :
+    cross (vscale k1 a) (vscale k2 b) = vscale (k1 * k2) (cross a b).
+  Proof. vring. Qed.
+
   (* the right-hand normal is orthogonal to both edges *)
   Lemma rh_normal_orthogonal (p0 p1 p2 : vec) :
     dot (rh_normal o p0 p1 p2) (vsub p1 p0) = r0 /\ dot (rh_normal o p0 p1 p2) (vsub p2 p0) = r0.
